@@ -48,6 +48,16 @@ class C19(ApiProp):
             n = rng.randrange(0, 60)
             d = [rng.randrange(256) if rng.random() < 0.5 else rng.choice([92, 39, 34, 10, 13, 9, 65, 32, 126, 127]) for _ in range(n)]
             cases.append(Case([7, 0] + d, {"fam": "esc", "mode": 0, "d": d}))
+        for v in fam_api.NOVEL:
+            if v > 300000:
+                continue
+            for n in (v, v + 1, v + 3):
+                for fill, pos in ((97, ()), (97, (v - 1, v, v + 1)), (10, ()), (97, (0, v)), (200, (v,))):
+                    d = [fill] * n
+                    for p in pos:
+                        if 0 <= p < n:
+                            d[p] = 10 if fill != 10 else 97
+                    cases.append(Case([7, 0] + d, {"fam": "esc", "mode": 0, "d": d}))
         # method and Debug forms in reachable states
         for size in (0, 1, 2, 3, 4, 8, 16, 100):
             for _ in range(60 if tier == "quick" else 600):
@@ -71,7 +81,8 @@ class C19(ApiProp):
 
     def correspond(self, cases, impl_traces, prof, model_fn):
         out = []
-        esc_idx = [i for i, c in enumerate(cases) if c.meta.get("fam") == "esc"]
+        # the model's escape_ascii appends at the end of a list (quadratic): inputs beyond 8 KiB are judged by the checker alone
+        esc_idx = [i for i, c in enumerate(cases) if c.meta.get("fam") == "esc" and len(c.meta["d"]) <= 8192]
         model = model_fn([cases[i].line for i in esc_idx])
         for i, m in zip(esc_idx, model):
             if impl_traces[i] != [int(x) for x in m.split()]:
